@@ -1,23 +1,58 @@
 // Unit A9 — evaluator robustness (C15; with_connection also serves C17's "evaluator remains usable").
 use vstd::prelude::*;
+// unreachable!(..) with a message that formats its arguments: the message is dropped, the obligation "never reached" stays
+#[allow(unused_macros)]
+macro_rules! unreachable { ($($t:tt)*) => { crate::unreachable_() } }
 verus! {
+#[verifier::external_body]
+pub fn unreachable_() -> !
+    requires false,
+{ loop {} }
 
 // ---------- shims ----------
 pub struct Connection { pub id: u64 }
 pub struct PeerAs;
 pub struct Any;
 pub struct PrefixSet<A> { pub _a: core::marker::PhantomData<A> }
+impl<A> core::default::Default for PrefixSet<A> { #[verifier::external_body] fn default() -> (r: Self) { unimplemented!() } }
+// irrc / rpsl types named by sink_error
+pub struct AutNum;
+pub enum Query { Ipv4Routes(AutNum), Ipv6Routes(AutNum), AsSetMembersRecursive(u64), RouteSetMembersRecursive(u64), Other }
+pub mod irrc {
+    pub mod error { pub enum Response { KeyNotFound, KeyNotUnique, Other } }
+    pub enum Error { ResponseErr(super::Query, error::Response), Other }
+}
+// &(dyn std::error::Error + Send + Sync + 'static)
+pub struct DynError;
+impl DynError {
+    // <dyn Error>::downcast_ref::<T>: Some iff the error is a T (which one it is: arbitrary)
+    #[verifier::external_body]
+    pub fn downcast_ref<T>(&self) -> (r: Option<&T>) { unimplemented!() }
+}
 // lib/src/error.rs (data carrier; only the variants used here)
 pub enum Error { AcquireConnection, UnresolvablePeerAs, Other }
 pub struct RpslEvaluator { pub conn: Option<Connection> }
 
 impl RpslEvaluator {
+    // rpsl::expr::eval::Evaluator::collect_result (default method): an Ok item is kept; an Err item is handed to sink_error and is
+    // either swallowed (Ok(None)) or propagated
+    #[verifier::external_body]
+    pub fn collect_result<T, E>(&mut self, r: Result<T, E>) -> (res: Result<Option<T>, Error>)
+        ensures *final(self) == *old(self), match r { Ok(v) => res == Ok::<Option<T>, Error>(Some(v)), Err(_) => res is Err || res == Ok::<Option<T>, Error>(None) }
+    { unimplemented!() }
+//@extract id=sink_error file=lib/src/query.rs impl=/impl<'a> Evaluator<'a> for RpslEvaluator/ fn=sink_error rules=R1,R2 vis=pub
+//@sig pub fn sink_error(&mut self, err: &DynError) -> (res: bool)
+//@contract
+        // C15: whatever error an item of an IRR response carries, classifying it never panics (the evaluation task is shared by all
+        // policies) and leaves the evaluator untouched
+        ensures *final(self) == *old(self),                                                    // OBL:C15.sink_error.evaluator_untouched
+//@end
 //@extract id=resolve_peer_as file=lib/src/query.rs impl=/Resolver<'_, PeerAs, PrefixSet<Any>> for RpslEvaluator/ fn=resolve rules=R1
 //@sig pub fn resolve_peer_as(&mut self, _peer_as: &PeerAs) -> (res: Result<PrefixSet<Any>, Error>)
 //@contract
         // C15: a construct the evaluator does not support is an evaluation error of that one policy, never a panic
         // (a panic kills the evaluation task and aborts the whole run); the evaluator itself is left untouched
-        ensures res is Err, *final(self) == *old(self),                                        // OBL:C15.peer_as.error_not_panic
+        ensures res is Err, *final(self) == *old(self),                                        // OBL:C15+C03.peer_as.error_not_panic
 //@end
 
 //@extract id=with_connection file=lib/src/query.rs impl=/^impl RpslEvaluator/ fn=with_connection rules=R1,R7,R17 r7map=result
